@@ -57,7 +57,7 @@ UNIT = Unit(
                C("item", """({ let i = p.0; let coin_data = p.1; match r { Some(p) => i < 256 ==> (p.0 == cid(*tx, i as int) && coin_data.covhash != spec_coin_destroy() && p.1.height == height && p.1.coin_data.covhash == coin_data.covhash
                                     && p.1.coin_data.value == coin_data.value && p.1.coin_data.additional_data == coin_data.additional_data
                                     && p.1.coin_data.denom == (if coin_data.denom == Denom::NewCustom { Denom::Custom(spec_txhash(*tx)) } else { coin_data.denom })),
-                                   None => coin_data.covhash == spec_coin_destroy() } })""", "C02")])]),
+                                   None => coin_data.covhash == spec_coin_destroy() } })""", "C02", "C01")])]),
         Fn(A, "check_tx_validity", home="C04", implicit_props=("C09", "C04", "C13", "C01"), **ap_check_tx_validity(),
            rewrites=[("R4", 0)],
            closures=[Closure(0, "", "(r: Header)", ensures=[C("sealhdr", "r == spec_header(spec_seal(*this, None))", "C04")])],
@@ -69,9 +69,9 @@ UNIT = Unit(
            loops=[Loop(0, invariants=[
                C("ctx", "rel == relevant_coins@ && scripts@ == spec_covenants_map(*tx) && last_header == spec_last_header(*this) && tx.inputs@.len() <= 256 && fsum(tx.inputs@, in_value(rel)) <= u128::MAX", "C04"),
                C("exist_i", "forall|i: int| 0 <= i < spend_idx ==> rel.contains_key(#[trigger] tx.inputs@[i])", "C02"),
-               C("unlocked_i", "!lock_legacy(this.network, this.height) ==> forall|i: int| 0 <= i < spend_idx ==> !new_stakes@.contains_key((#[trigger] tx.inputs@[i]).txhash) && !this.stakes@.contains_key(tx.inputs@[i].txhash)", "C13"),
-               C("approved_i", "forall|i: int| 0 <= i < spend_idx ==> script_approves(spec_covenants_map(*tx), rel[tx.inputs@[i]].coin_data.covhash, *tx, #[trigger] env_of(*tx, rel, i, spec_last_header(*this)))", "C04"),
-               C("good", "forall|a: Address| good_scripts@.contains(a) ==> exists|i: int| 0 <= i < spend_idx && #[trigger] rel[tx.inputs@[i]].coin_data.covhash == a", "C04"),
+               C("unlocked_i", "!lock_legacy(this.network, this.height) ==> forall|i: int| 0 <= i < spend_idx ==> !new_stakes@.contains_key((#[trigger] tx.inputs@[i]).txhash) && !this.stakes@.contains_key(tx.inputs@[i].txhash)", "C13", "C02"),
+               C("approved_i", "forall|i: int| 0 <= i < spend_idx ==> script_approves(spec_covenants_map(*tx), rel[tx.inputs@[i]].coin_data.covhash, *tx, #[trigger] env_of(*tx, rel, i, spec_last_header(*this)))", "C04", "C02"),
+               C("good", "forall|a: Address| good_scripts@.contains(a) ==> exists|i: int| 0 <= i < spend_idx && #[trigger] rel[tx.inputs@[i]].coin_data.covhash == a", "C04", "C02"),
                C("sums", "in_coins@ == in_sums(tx.inputs@, rel, spend_idx as int)", "C01"),
                C("dist", "forall|a: int, b: int| 0 <= a < b < tx.inputs@.len() && rel.contains_key(tx.inputs@[a]) && rel.contains_key(tx.inputs@[b]) ==> rel[tx.inputs@[a]].coin_data.covhash != rel[tx.inputs@[b]].coin_data.covhash", "C04"),
            ])]),
